@@ -30,8 +30,20 @@ def load_harness(path):
     return mi
 
 
+def _literal_env(mi):
+    env = {}
+    for k, v in mi.assigns.items():
+        try:
+            env[k] = ast.literal_eval(v)
+        except Exception:
+            pass
+    env["dict"] = dict
+    return env
+
+
 def lemma_defs(mi):
     out = []
+    env = _literal_env(mi)
     for node in mi.tree.body:
         if isinstance(node, ast.FunctionDef):
             for d in node.decorator_list:
@@ -41,7 +53,7 @@ def lemma_defs(mi):
                     if isinstance(d, ast.Call):
                         for kw in d.keywords:
                             try:
-                                opts[kw.arg] = ast.literal_eval(kw.value)
+                                opts[kw.arg] = eval(compile(ast.Expression(kw.value), mi.path, "eval"), {"__builtins__": {}}, env)
                             except Exception:
                                 opts[kw.arg] = ast.unparse(kw.value)
                     out.append((node, opts))
@@ -316,6 +328,11 @@ def run_lemma(path, lemma_name, tier="quick"):
                 raise Unsupported("stub function %s not defined in harness" % fname)
             I.stubs[q] = FuncVal(mi.defs[fname], mi)
         st = St()
+        for q, gname in (opts.get("overrides") or {}).items():
+            # a module global of the repo replaced by a harness-level value (e.g. the nuclide table by an abstract one)
+            modname, attr = q.split(":")
+            I.global_overrides[(modname, attr)] = I.resolve_global(mi, gname)
+            I.trust("override:" + q, "module global %s replaced by the harness value `%s`" % (q, gname))
         vars = {}
         for a in node.args.args:
             vars[a.arg] = sym_param(I, st, a.arg, a.annotation)
